@@ -66,7 +66,26 @@ def unit(args: dict) -> dict:
                 traces.append({"mi": e.mi, "tag": f"edge:{w}",
                                "steps": [{"t": r[i][0]["now"], "op": steps[i]["op"], "out": r[i][1], "svcs": r[i][0]["svcs"], "timers": r[i][0]["timers"], "queue": r[i][0]["queue"],
                                           "config": r[i][0]["config"], "status": r[i][0]["status"]} for i in range(len(r))]})
-                tctx.append((b, steps, r))
+                tctx.append((b, steps, r, len(steps)))
+                # The engine keeps a timer / service alive that the model has already released: the model offers no
+                # driver step for it, so the observed run is continued on the engine alone (let it expire / complete,
+                # let the suspended macrostep resume) and the whole continuation is judged by the Prop layer.
+                if w in ("state.svcs", "state.timers") and args.get("extend", True):
+                    extra_s = [x for x in post["svcs"] if x not in e.to["svcs"]]
+                    extra_t = [x for x in post["timers"] if x not in e.to["timers"]]
+                    ext = []
+                    if extra_s and engine == "async":
+                        ext = [{"op": "resolve", "ev": extra_s[0][1], "gv": e.step.get("gv") or {}}]
+                    if extra_s or extra_t:
+                        ext += [{"op": "advance", "ev": "", "gv": e.step.get("gv") or {}} for _ in range(3)]
+                        steps2 = steps + ext
+                        r2 = run_steps(b, steps2)
+                        traces.append({"mi": e.mi, "tag": f"extension:{w}",
+                                       "steps": [{"t": r2[i][0]["now"], "op": steps2[i]["op"], "out": r2[i][1], "svcs": r2[i][0]["svcs"],
+                                                  "timers": r2[i][0]["timers"], "queue": r2[i][0]["queue"], "config": r2[i][0]["config"],
+                                                  "status": r2[i][0]["status"]} for i in range(len(r2))]})
+                        tctx.append((b, steps2, r2, len(steps)))
+                        out["extended"] = out.get("extended", 0) + 1
         if edges:
             e0 = next((e for e in edges if e.step["op"] == "advance" and any(o[0] == "on_transition" for o in e.out)), edges[0])
             out["samples"].append({"machine": built[e0.mi - 1].spec.label, "from": e0.frm, "step": e0.step, "to": e0.to})
@@ -82,10 +101,11 @@ def unit(args: dict) -> dict:
             for v in vres.json_lines:
                 out["trace_steps"] += 1
                 if v.get(prop):
-                    b, steps, r = tctx[v["ti"] - 1]
-                    if v["l"] == len(steps):        # the step under test (the path was judged by its own edges)
-                        out["violations"].append(core_check._viol(prop, sorted(v[prop]), engine, b, steps, r[-1][1],
-                                                                  "trace", r[-1][0], r[-2][0] if len(r) > 1 else None))
+                    b, steps, r, base = tctx[v["ti"] - 1]
+                    if v["l"] >= base:        # the step under test or its continuation (the path was judged by its own edges)
+                        li = v["l"] - 1
+                        out["violations"].append(core_check._viol(prop, sorted(v[prop]), engine, b, steps[:v["l"]], r[li][1],
+                                                                  "trace", r[li][0], r[li - 1][0] if li > 0 else None))
             if vres.returncode != 0 or not vres.json_lines:
                 out["errors"].append("trace validation failed: " + "; ".join(vres.errors[:3]))
     except Exception:
